@@ -20,7 +20,11 @@ pub struct Case {
 }
 
 fn limit(s: &mut Src) -> LimitVal {
-    gen::limit_val(s)
+    if s.chance(1, 8) {
+        gen::limit_own_units(s)
+    } else {
+        gen::limit_val(s)
+    }
 }
 
 /// Scene for the independent encoder: like a writer program, plus the
@@ -221,6 +225,13 @@ impl Check for C03 {
         let mut scene = build_scene(&case.scene);
         // the order of namespace declarations is not significant in XML
         scene.extensions.sort();
+        // a ScaledInteger limit in the units of the attribute it limits is a raw value of that attribute
+        for c in scene.clouds.iter_mut() {
+            e57ref::scene::settle_limits(c, false);
+            if c.meta.intensity_limits.iter().flatten().chain(c.meta.color_limits.iter().flatten()).any(|l| matches!(l, Some(LimitVal::SX { .. }))) {
+                v.nt("scaled_integer_limit_with_units_of_its_own");
+            }
+        }
         layout_labels(&case.layout, &scene, &mut v);
         crate::c01::proto_labels(&case.scene, &mut v);
         let enc = match encode(&scene, &case.layout) {
@@ -257,6 +268,11 @@ impl Check for C03 {
                 // a prefixed E57 namespace declaration is not an extension
                 got.extensions.retain(|(_, u)| u != E57_NS);
                 got.extensions.sort();
+                // the API reports a limit with units of its own as the real number it stands for
+                let mut scene = scene.clone();
+                for c in scene.clouds.iter_mut() {
+                    e57ref::scene::settle_limits(c, true);
+                }
                 if let Some(diff) = diff_scene(&scene, &got, "encoded", "read") {
                     v.fail(format!("reader returns other content than was encoded: {diff}"));
                 }
